@@ -17,15 +17,17 @@ TRUSTED = [
     "not modelled (C14)",
 ]
 ASSUMPTIONS = [
-    "a block id stands for the address of a live block: scripts never allocate a live id and never free a non-live one "
-    "(both are no-ops in harness and model)",
+    "a block id stands for the address of a live block: scripts never allocate a live id and never free or realloc a "
+    "non-live one (no-ops in harness and model); global mode: realloc only of malloc'ed blocks (others are skipped: `badkind`)",
+    "realloc outcomes are scripted: the platform realloc either succeeds or returns NULL (seam wrapped by the harness)",
     "allocation numbers do not wrap (unsigned, 2^32 allocations)",
     "the leak plugin is the only plugin that adds failures in post actions; overloads on (the default) unless the case says "
     "`nooverloads`, for which the property demands nothing but the absence of a leak failure",
     "global mode: the only tracked allocation the runner makes inside the window (the test object) is released inside it",
 ]
-RULE = ("sequences of 1-30 scripted tests, each with 0-6 alloc/free per phase (setup, body, teardown, and between tests), "
-        "frees of earlier tests' blocks, expected-leak counts 0-3, ignore flag, own failures in any phase; both detector "
+RULE = ("sequences of 1-30 scripted tests, each with 0-6 alloc/free/realloc per phase (setup, body, teardown, and between tests), "
+        "frees of earlier tests' blocks, tracked reallocs of own and earlier blocks with the platform realloc succeeding or "
+        "failing (PlatformSpecificRealloc seam), expected-leak counts 0-3, ignore flag, own failures in any phase; both detector "
         "modes; non-trivial = at least two tests and at least one leak failure or one test passing with outstanding blocks; "
         "distinct = distinct op sequences")
 
@@ -40,6 +42,7 @@ class Sim:
         self.live = []          # labels
         self.next_label = 1
         self.freed = []
+        self.kind = {}          # label -> allocation family (global mode: only malloc blocks can be realloc'ed)
 
 
 def gen_phase_cmds(rng, sim, tno, ph, n_ops, st, is_global, malformed):
@@ -59,14 +62,56 @@ def gen_phase_cmds(rng, sim, tno, ph, n_ops, st, is_global, malformed):
                 label = rng.choice(sim.live)            # duplicate: a no-op
             size = rng.choice([1, 2, 3, 4, 7, 8, 9, 15, 16, 17, 24]) if rng.random() < 0.9 else rng.randint(0, 40)
             line = "cmd %d %s alloc %d %d" % (tno, ph, label, size)
+            akind = rng.choice(AKINDS + ["malloc"])
             if is_global:
-                line += " " + rng.choice(AKINDS)
+                line += " " + akind
             ops.append(line)
             if executed and label not in sim.live and label < 2048:
+                sim.kind[label] = akind
                 sim.live.append(label)
                 st["mine"].append(label)
                 if label in sim.freed:
                     sim.freed.remove(label)
+        elif x < 0.62 and sim.live and not st.get("no_realloc"):
+            # tracked realloc of an own or an earlier test's block; the platform realloc succeeds or fails
+            cand = [l for l in sim.live if not is_global or sim.kind.get(l) == "malloc"]
+            if malformed and rng.random() < 0.25:
+                cand = list(sim.live) + [rng.randint(1, sim.next_label + 2)]
+            if not cand:
+                cand = [rng.choice(sim.live)]           # global mode, no malloc block: the harness says `badkind`
+            mine = [l for l in cand if l in st["mine"]]
+            earlier = [l for l in cand if l not in st["mine"]]
+            if earlier and (rng.random() < 0.55 or not mine):
+                label = rng.choice(earlier)
+            else:
+                label = rng.choice(mine or cand)
+            size = rng.choice([1, 4, 8, 16, 24, 40])
+            ok_kind = (not is_global) or sim.kind.get(label) == "malloc"
+            if rng.random() < 0.5:
+                ops.append("cmd %d %s realloc-fail %d %d" % (tno, ph, label, size))
+            else:
+                y = rng.random()
+                if y < 0.25:
+                    new = label                                   # the result keeps the old label
+                elif malformed and sim.live and y < 0.45:
+                    new = rng.choice(sim.live)                    # probably a live label: a no-op
+                else:
+                    new = sim.next_label
+                    sim.next_label += 1
+                ops.append("cmd %d %s realloc %d %d %d" % (tno, ph, label, new, size))
+                if executed and ok_kind and label in sim.live and (new == label or new not in sim.live) and new < 2048:
+                    sim.live.remove(label)
+                    if label in st["mine"]:
+                        st["mine"].remove(label)
+                    else:
+                        st["freed_earlier"] = True
+                    sim.live.append(new)
+                    st["mine"].append(new)
+                    sim.kind[new] = sim.kind.get(label, "malloc")
+                    if new != label:
+                        sim.freed.append(label)
+                    if new in sim.freed:
+                        sim.freed.remove(new)
         elif x < 0.85:
             if not sim.live or (malformed and rng.random() < 0.2):
                 label = rng.randint(1, max(2, sim.next_label + 2))      # probably not live
@@ -103,7 +148,7 @@ def gen_test(rng, sim, tno, is_global, malformed, bulk=False):
     st = {"aborted": False, "mine": [], "freed_earlier": False}
     # between tests
     if rng.random() < 0.25:
-        st0 = {"aborted": False, "mine": [], "freed_earlier": False}
+        st0 = {"aborted": False, "mine": [], "freed_earlier": False, "no_realloc": not malformed}
         lines = gen_phase_cmds(rng, sim, tno, "o", rng.randint(1, 3), st0, is_global, malformed)
         if not malformed:
             lines = [l for l in lines if l.split()[3] in ("alloc", "free")]
@@ -167,6 +212,10 @@ def fixed_cases():
                    "cmd 2 t alloc 3 8", "test 3", "cmd 3 b expect 1"]),
         ("fixed", ["mode global", "test 1", "cmd 1 b alloc 1 8 new", "test 2", "cmd 2 b free 1", "cmd 2 b alloc 2 4 malloc",
                    "test 3", "cmd 3 s alloc 3 8 newarr", "cmd 3 b fail", "test 4", "cmd 4 t alloc 4 3 new", "cmd 4 t expect 1"]),
+        ("fixed", ["mode private", "test 1", "cmd 1 b expect 1", "cmd 1 b alloc 1 10", "test 2", "cmd 2 b realloc-fail 1 1000",
+                   "test 3", "cmd 3 b realloc 1 2 20", "test 4", "cmd 4 b free 2"]),
+        ("fixed", ["mode global", "test 1", "cmd 1 b expect 1", "cmd 1 b alloc 1 10 malloc", "test 2", "cmd 2 b realloc-fail 1 1000",
+                   "test 3", "cmd 3 b realloc 1 2 20", "test 4", "cmd 4 b free 2"]),
         ("fixed", ["mode private nooverloads", "test 1", "cmd 1 b alloc 1 8", "test 2", "cmd 2 b expect 1"]),
         ("fixed", ["mode private"] + ["test 1"] + ["cmd 1 b alloc %d 8" % i for i in range(1, 31)] + ["test 2", "cmd 2 b alloc 40 1"]),
     ]
@@ -202,14 +251,28 @@ def _tests(r):
         if w[0] == ">":
             if w[1] == "test":
                 cur = {"mine": set(), "own": 0, "ignore": False, "expect": None, "leakfail": None, "freed_earlier": False,
-                       "skipped": 0, "window": False, "trunc": False, "warn": False}
+                       "skipped": 0, "window": False, "trunc": False, "warn": False, "events": []}
                 tests.append(cur)
             elif w[1] == "pre" and cur is not None:
                 cur["window"] = True
             last_cmd = w[1:]
         elif cur is not None and last_cmd and last_cmd[0] == "cmd":
             kind = last_cmd[2]
-            if w[0] == "num" and kind == "alloc":
+            if w[0] == "num" and kind == "realloc":
+                old, new = last_cmd[3], last_cmd[4]
+                cur["events"].append("realloc_ok_own_block" if old in cur["mine"] else "realloc_ok_earlier_block")
+                if old in live and old not in cur["mine"]:
+                    cur["freed_earlier"] = True
+                live.discard(old)
+                cur["mine"].discard(old)
+                live.add(new)
+                if cur["window"]:
+                    cur["mine"].add(new)
+            elif w[0] == "ok" and kind == "realloc-fail":
+                cur["events"].append("realloc_failed_own_block" if last_cmd[3] in cur["mine"] else "realloc_failed_earlier_block")
+            elif w[0] == "badkind":
+                cur["events"].append("realloc_skipped_not_malloc")
+            elif w[0] == "num" and kind == "alloc":
                 live.add(last_cmd[3])
                 if cur["window"]:
                     cur["mine"].add(last_cmd[3])
@@ -258,6 +321,10 @@ def observe(r, rep):
             rep.count("branch.pass_expected_equals_outstanding")
         elif n == 0 and not t["own"]:
             rep.count("branch.clean_pass")
+        for e in t["events"]:
+            rep.count("branch." + e)
+        if "realloc_failed_earlier_block" in t["events"] and not t["leakfail"] and not t["own"]:
+            rep.count("branch.pass_after_failed_realloc_of_earlier_block")
         if t["trunc"]:
             rep.count("branch.report_truncated")
         if t["warn"]:
@@ -269,12 +336,13 @@ def observe(r, rep):
 
 
 LEVEL_TEXT = ("Machine-checked Lean 4 theorems, for every sequence of scripted tests of any length (any alloc/free script in "
-              "setup, body, teardown and between tests, frees of earlier tests' blocks, any expected count, ignore flag, own "
-              "failures): a leak failure is added exactly when the test passed its own checks, did not ask to ignore leaks and "
+              "setup, body, teardown and between tests, frees of earlier tests' blocks, tracked reallocs of own and earlier "
+              "blocks with the platform realloc succeeding or failing, any expected count, ignore flag, own failures): a leak failure is added exactly when the test passed its own checks, did not ask to ignore leaks and "
               "the number of blocks allocated between its pre and post action and still outstanding differs from the declared "
               "number; the report lists exactly those blocks and states their number; no block that was live before a test's pre "
               "action appears in its report; frees of earlier blocks do not change the verdict; a test with an own failure gets "
-              "no leak failure; flags are reset after every test. The theorems are about an interpreter that executes statement "
+              "no leak failure; a failed realloc changes nothing (the old block keeps its test), a successful one makes the "
+              "result a block of the reallocating test; flags are reset after every test. The theorems are about an interpreter that executes statement "
               "lists regenerated from the C++ source on every run; interpreter and abstract detector are tied to the code by a "
               "differential harness (real plugin, real runner, private and global detector, ASan/UBSan) and the "
               "implementation's own observations are judged by an independent specification oracle.")
